@@ -112,3 +112,49 @@ crate::verif_harness! {
         }
     }
 }
+
+// Address slicing for EVERY 65-byte uncompressed encoding (assume-guarantee: that
+// `encode_uncompressed` returns 04 || X || Y of the key's point is decided by c04_address): the
+// hashed bytes are exactly bytes 1..65 whatever X and Y are (e.g. coordinates that start with 0x04
+// or 0x00), and the address is the last 20 bytes of the digest.
+static mut ENC: [u8; 65] = [0; 65];
+fn encode_uncompressed_stub(_key: &PublicKey) -> [u8; 65] {
+    unsafe { ENC }
+}
+
+crate::verif_harness! {
+    #[kani::stub(k256::arithmetic::mul::mul, mul_stub)]
+    #[kani::stub(k256::ProjectivePoint::to_affine, to_affine_stub)]
+    #[kani::stub(crate::account::public::PublicKey::encode_uncompressed, encode_uncompressed_stub)]
+    #[kani::stub(ethdigest::Digest::of, crate::__verif_common::digest_of_stub80)]
+    #[kani::unwind(67)]
+    fn c04_address_slicing() {
+        let mut enc: [u8; 65] = kani::any();
+        enc[0] = 0x04;
+        unsafe { ENC = enc; }
+        let mut secret = [0u8; 32];
+        secret[31] = 1;
+        let key = PrivateKey::new(secret).expect("one is a valid secret");
+        let address = key.address();
+        kani::cover!(enc[1] == 0x04 && enc[2] == 0x04, "X starts with 0x04 bytes");
+        kani::cover!(enc[1] == 0x00, "X starts with a zero byte");
+        if stubs_active() {
+            let n = digest_calls();
+            assert!(n == 1, "exactly one Keccak invocation");
+            let out = unsafe { DLOG_OUT[0] };
+            digest_expect80(0, &enc[1..], &out);
+            assert!(bytes_eq(&address.0, &out[12..]), "address is not the last 20 bytes of the digest");
+        } else {
+            // native replay: the witness' coordinates are not a real public key, so search the first
+            // secrets for real keys with unusual leading coordinate bytes (45 is the first with X = 04..)
+            for k in 1u32..=3000 {
+                let mut sec = [0u8; 32];
+                sec[28..].copy_from_slice(&k.to_be_bytes());
+                let key = PrivateKey::new(sec).unwrap();
+                let e = key.public().encode_uncompressed();
+                let d = Digest::of(&e[1..]);
+                assert!(key.address().0[..] == d[12..], "address is not the last 20 bytes of Keccak over the 64 coordinate bytes");
+            }
+        }
+    }
+}
